@@ -560,3 +560,32 @@ def assembled_program_nesting_checked(ctx, rep, rule):
 
 _add("C17", assembled_program_nesting_checked, "C17.12")
 _add("C14", assembled_program_nesting_checked, "C14.21")
+
+
+# ---------------------------------------------------------------- C04: the expander's normaliser agrees with the builder's
+
+def index_normaliser_handles_bool(ctx, rep, rule):
+    """The builder turns an index or count that is written out into a plain integer with `as_integer` (int(v) when
+    it equals v: 2.0 -> 2, True -> 1).  The expander's own normaliser for substituted values has to agree, or a
+    macro call differs from its hand-substituted body."""
+    ix = ctx.ix
+    f = _func(ix, "jaqalpaq.core.algorithm.expand_macros.filter_float")
+    rep.rule(rule, "expand_macros' normaliser for substituted indices and counts converts bool as the builder's as_integer does (sibling agreement)", floor=1)
+    cons = construct_of(f, "bool")
+    v = f.params[0]
+    handled = False
+    for t in ast.walk(f.node):
+        if isinstance(t, ast.Call) and isinstance(t.func, ast.Name) and t.func.id == "isinstance" and len(t.args) == 2 and isinstance(t.args[0], ast.Name) and t.args[0].id == v:
+            ts = t.args[1].elts if isinstance(t.args[1], ast.Tuple) else [t.args[1]]
+            if {ast.unparse(x).split(".")[-1] for x in ts} & {"bool", "int", "Integral", "Real", "Number"}:
+                handled = True
+    generic = not any(isinstance(t, ast.Call) and isinstance(t.func, ast.Name) and t.func.id == "isinstance" for t in ast.walk(f.node))
+    if handled:
+        rep.ok(rule, cons, "bool (or every integral number) is converted", f.loc())
+    elif generic:
+        rep.undecided(rule, cons, "no type test at all: the conversion is by value", f.loc())
+    else:
+        rep.violation(rule, cons, "only float is normalised: `macro foo i { G q[i] }; foo True` expands to the qubit `q[True]` (written so by the generator, refused by the parser) while the hand-substituted `G q[True]` is built as q[1]", f.loc(), witness="build([... ['macro', 'foo', 'i', [..['gate', 'G', ['array_item', 'q', 'i']]]], ['gate', 'foo', True]])")
+
+
+_add("C04", index_normaliser_handles_bool, "C04.17")
